@@ -15,7 +15,7 @@ MODULES = {
     "C07": _SOCK + ["contracts.api_zone", "contracts.api_ac"],  # setters: what an encoder may raise is what the drain catches
     "C08": _HB + ["contracts.sock_conn", "contracts.api_airtouch"],
     "C09": _API + ["contracts.sock_conn"],  # open_socket must not wait for the connection (init() budget)
-    "C10": _API + _FL,
+    "C10": _API + _FL + ["contracts.sock_conn"],   # frames reach the model one at a time, in order: the read loop awaits each delivery
     "C11": _API + _FL,
     "C12": _API + ["contracts.sock_conn"],
     "C13": _SOCK,
